@@ -14,9 +14,9 @@ use crate::gen::*;
 use crate::progs::*;
 use crate::repo::*;
 
-const MODES: [&str; 15] = [
+const MODES: [&str; 16] = [
     "direct", "helper", "inline", "let", "lambda", "branch_of_dynamic_condition", "condition_position", "failing_branch_only", "dead_branch_of_static_condition",
-    "not_at_all", "helper_that_ignores_it", "rest_argument", "second_use_only_in_helper_of_helper", "end_of_a_chain_of_conditional_helpers", "deeply_nested_argument_expression",
+    "not_at_all", "helper_that_ignores_it", "rest_argument", "second_use_only_in_helper_of_helper", "end_of_a_chain_of_conditional_helpers", "deeply_nested_argument_expression", "captured_by_a_returned_lambda",
 ];
 
 /// One use expression for parameter `u` in the given mode; may add helpers. `other`: another parameter (or a literal) for conditions.
@@ -72,6 +72,11 @@ fn use_expr(rng: &mut Rng, mode: &str, u: &str, other: &Expr, k: usize, helpers:
             let name = format!("ur_{k}");
             helpers.push(Helper::Fun(Fun { name: name.clone(), inline: false, params: Pat::flat(&[("X".to_string(), Ty::Any)], Some(("R".to_string(), Ty::Any))), body: Expr::List(vec![v("X"), v("R")]), ret: Ty::Any, recursive: false }));
             Expr::Call(name, vec![int(1)], Some(Box::new(v(u))))
+        }
+        "captured_by_a_returned_lambda" => {
+            // the closure itself is part of the result: its captured value is in it
+            let z = format!("z{k}");
+            Expr::Lambda(vec![u.to_string()], Pat::flat(&[(z.clone(), Ty::Int)], None), Box::new(Expr::List(vec![Expr::Var(u.to_string()), Expr::Var(z)])))
         }
         "end_of_a_chain_of_conditional_helpers" => {
             // h_0(X) = (if X (h_1 X) 0) ... h_n(X) = X : the parameter only comes out at the end of n nested conditionals
